@@ -731,6 +731,20 @@ fn run_case(cc: &CCase, stats: &mut Stats, genr: Option<(&mut Prng, usize)>, tot
         snap = post;
         i += 1;
     }
+    // second oracle: the repository's own state invariants.  Its miner-vs-registry cross check
+    // assumes verified_deal_weight = size * (expiration - term_start), which stops being true after
+    // any extension (power_base_epoch moves), so those messages are only counted; messages of the
+    // registry / datacap checks themselves are failures.
+    for msg in state_check_messages(&cw.w.v) {
+        if msg.starts_with("verifreg: ") || msg.starts_with("datacap: ") {
+            fails.push(json!({"class": "repo-state-invariant", "step": n_total, "what": [msg], "case": CCase { ops: done.clone() }}));
+        } else {
+            let key = if msg.contains("does not match claims") { "state_check_weight_vs_claims_messages" }
+                else if msg.contains("is after claim term max") { "state_check_expiration_after_term_max_messages" }
+                else { "state_check_other_claim_messages" };
+            *totals.entry(key.to_string()).or_insert(0) += 1;
+        }
+    }
     for (k, v) in [("sectors_onboarded", mon.onboarded), ("sector_extensions", mon.extended), ("extensions_dropping_claims", mon.extended_with_drop),
         ("extensions_accepted_with_repeated_claim_id", mon.dup_accepted), ("extensions_accepted_with_sector_in_two_declarations", mon.split_accepted), ("claims_removed", mon.claims_removed), ("sectors_terminated", mon.terminated)] {
         *totals.entry(k.to_string()).or_insert(0) += v;
